@@ -66,6 +66,17 @@ def case_strategy_c(draw):
     for h in handlers:
         h["sw"] = draw(swi)
     pre = [["add", i] for i in draw(st.lists(st.integers(0, NH - 1), min_size=2, max_size=8))]
+    if draw(st.integers(0, 3)) == 0:
+        # directed opening: an untimed handler removes (or re-adds) a timed handler of the same switch and state in the very
+        # dispatch that starts the timed one's hold interval
+        stt = draw(st.integers(0, 1))
+        swx = draw(st.sampled_from([0, 2]))
+        hold = draw(st.sampled_from([1, 50]))
+        handlers[0] = {"sw": swx, "state": stt, "ms": 0, "on_call": draw(st.sampled_from([["remove", 1], ["remove", 1], ["add", 1]]))}
+        handlers[1] = {"sw": swx, "state": stt, "ms": hold, "on_call": None}
+        order = draw(st.sampled_from([[0, 1], [1, 0]]))
+        pre = [["report", swx, 1 - stt, "logical"], ["advance", 2]] + [["add", i] for i in order] + [
+            ["report", swx, stt, "logical"], ["advance", hold + 1]]
     ops = draw(st.lists(op, min_size=3, max_size=40))
     for o in ops:
         if o[0] in ("report", "query"):
